@@ -4,7 +4,10 @@ import (
 	"cmp"
 	"fmt"
 	"iter"
+	"os"
+	"runtime"
 	"slices"
+	"strconv"
 	"time"
 )
 
@@ -211,4 +214,34 @@ func resetPools() {
 	for _, f := range poolResetters {
 		f()
 	}
+}
+
+// ---- processor count ----
+
+var simProcs = func() int {
+	if v := os.Getenv("VSIM_PROCS"); v != "" {
+		if n, err := strconv.Atoi(v); err == nil && n > 0 {
+			return n
+		}
+	}
+	return 0
+}()
+
+// GOMAXPROCS replaces runtime.GOMAXPROCS in instrumented library code. The
+// simulator serialises execution on one processor; code that sizes or shards
+// its structures by the processor count would otherwise always see 1. The
+// value is fixed per simulator process (it differs from process to process).
+func GOMAXPROCS(n int) int {
+	if simProcs > 0 {
+		return simProcs
+	}
+	return runtime.GOMAXPROCS(n)
+}
+
+// NumCPU replaces runtime.NumCPU in instrumented library code.
+func NumCPU() int {
+	if simProcs > 0 {
+		return simProcs
+	}
+	return runtime.NumCPU()
 }
